@@ -6,6 +6,7 @@ import (
 	"encoding/json"
 	"errors"
 	"fmt"
+	"strings"
 
 	"cuelabs.dev/go/oci/ociregistry"
 	"cuelabs.dev/go/oci/ociregistry/ocifilter"
@@ -56,6 +57,9 @@ func c14readonly(env *core.Env) {
 		m.Step(op, reg.Exec(ctx, mem, op, setup))
 	}
 	before := m.Canon()
+	// what the underlying registry shows of itself, asked directly: lists, and what
+	// every tag resolves to - also a tag whose manifest has been deleted from under it
+	seenBefore := c14observe(ctx, mem, m)
 	tracker := reg.NewTracker()
 	ro := ocifilter.ReadOnly(reg.Wrap(mem, tracker, nil))
 	cfg.Uploads = true
@@ -96,6 +100,27 @@ func c14readonly(env *core.Env) {
 		core.Harnessf("model changed by reads")
 	}
 	readBack(env, ctx, mem, m, "C14/readonly/underlying-changed")
+	if seenAfter := c14observe(ctx, mem, m); seenAfter != seenBefore {
+		env.Failf("C14/readonly/underlying-changed", "calls through the read-only wrapper changed what the underlying registry shows:\n  before: %s\n  after:  %s", seenBefore, seenAfter)
+	}
+}
+
+// c14observe asks r directly for its lists and for what every tag the model knows
+// resolves to (or fails with).
+func c14observe(ctx context.Context, r ociregistry.Interface, m *reg.Model) string {
+	var sb strings.Builder
+	repos, err := ociregistry.All(r.Repositories(ctx, ""))
+	fmt.Fprintf(&sb, "repositories %v %s;", repos, reg.CodeOf(err))
+	for _, name := range sortedKeys(m.Repos) {
+		tags, err := ociregistry.All(r.Tags(ctx, name, ""))
+		fmt.Fprintf(&sb, " %s: tags %v %s", name, tags, reg.CodeOf(err))
+		for _, t := range sortedKeys(m.Repos[name].Tags) {
+			d, err := r.ResolveTag(ctx, name, t)
+			fmt.Fprintf(&sb, " %s=%s/%s", t, d.Digest, reg.CodeOf(err))
+		}
+		sb.WriteString(";")
+	}
+	return sb.String()
 }
 
 // readBack checks that everything the model holds is retrievable from r.
